@@ -644,7 +644,7 @@ func (ecd Encoder) decodePublic(pt *rlwe.Plaintext, values FloatSlice, logprec f
 					values[i].Set(buffCmplx[i][0])
 				}
 				if logprec != 0 {
-					for i := range values {
+					for i := 0; i < slots; i++ {
 						values[i].Mul(values[i], scale)
 
 						// Adds/Subtracts 0.5
@@ -689,7 +689,7 @@ func (ecd Encoder) decodePublic(pt *rlwe.Plaintext, values FloatSlice, logprec f
 				}
 
 				if logprec != 0 {
-					for i := range values {
+					for i := 0; i < slots; i++ {
 
 						// Real
 						values[i][0].Mul(values[i][0], scale)
